@@ -194,7 +194,17 @@ fn check_behaviour(ctx: &Ctx, job: &Job, depth: usize, max_states: usize) {
     };
     let cfg = ExploreCfg { max_depth: depth, max_states, use_key: true };
     let mut bad = None;
+    let mut n_capt = 0u64;
     let st = explore_pair(a, b, &cfg, |x, y, hist, _d| {
+        // what the symbols that carry a capture have captured so far
+        if x.captures() != y.captures() {
+            let f = |c: &[(String, Vec<u8>)]| c.iter().map(|(n, v)| (n.clone(), show(v))).collect::<Vec<_>>();
+            bad = Some((hist.to_vec(), json!({"optimized_captures": f(x.captures()), "unoptimized_captures": f(y.captures())})));
+            return None;
+        }
+        if !x.captures().is_empty() {
+            n_capt += 1;
+        }
         if x.is_stopped() || y.is_stopped() {
             if x.is_stopped() != y.is_stopped() {
                 bad = Some((hist.to_vec(), json!({"optimized_stopped": x.is_stopped(), "unoptimized_stopped": y.is_stopped()})));
@@ -224,6 +234,7 @@ fn check_behaviour(ctx: &Ctx, job: &Job, depth: usize, max_states: usize) {
     ctx.transitions.fetch_add(st.transitions, Ordering::Relaxed);
     ctx.validated.fetch_add(st.transitions, Ordering::Relaxed);
     ctx.count("behaviour_pairs_explored", 1);
+    ctx.count("states_with_captures_compared", n_capt);
     if let Some((hist, what)) = bad {
         ctx.violation(Violation {
             check: "behaviour_differs".into(),
@@ -244,6 +255,9 @@ fn param_items() -> Vec<corpus::Item> {
         ("p-alias-used-with-expr", "start: u::0\nu::_ : \"a\" al::set_bit(1) | \"c\" al::_\nal::_ : t::_\nt::_ : \"x\" %if bit_set(1)\n  | \"y\" %if bit_clear(1)"),
         ("alias-plain", "start: a\na: b\nb: c\nc: \"x\" | \"y\" c"),
         ("alias-capture", "start: a \"!\"\na[capture]: b\nb: c\nc[capture=\"cc\"]: /[xy]+/"),
+        ("cap-mid", "start: a \"!\" b \"q\"\na[capture]: /[xy]+/\nb[capture=\"bb\"]: \"z\" c\nc: a | \"q\""),
+        ("cap-alias-twice", "start: a \"!\" a \"z\"\na[capture=\"A\"]: b\nb: \"x\" | \"y\" b"),
+        ("cap-list", "start: item+ \"!\"\nitem[capture]: /[xy]/ \"z\"?"),
         ("alias-two-users", "start: a a | b\na: c\nb: c \"z\"\nc: \"x\" | \"y\""),
         ("alias-nullable", "start: a \"q\"\na: b\nb: c |\nc: \"x\""),
     ];
@@ -285,6 +299,6 @@ pub fn run(ctx: &Ctx) -> Coverage {
         ctx.machinery_error("vacuous run: no language compared, no behaviour pair explored, or the optimizer never changed a grammar");
     }
     Coverage::StateGraph {
-        rule: format!("(a) for every grammar of the corpus, the generated Lark family, the JSON-schema templates and hand-written parametric / alias shapes: the set of terminal-index sequences of length <= {k} derivable from the start symbol, computed as a least fixed point over (symbol, parameter value) on the structured dump of the Grammar before and after optimize(), must be equal, and the multiset of special symbols (captures, stop captures, token limits, sub-grammar links) reachable from the start must be equal; (b) the same grammars compiled with and without the optimiser and explored in lock-step (depth {depth}, <= {max_states} pairs): equal masks and accepting flags; states = grammars + explored pairs"),
+        rule: format!("(a) for every grammar of the corpus, the generated Lark family, the JSON-schema templates and hand-written parametric / alias shapes: the set of terminal-index sequences of length <= {k} derivable from the start symbol, computed as a least fixed point over (symbol, parameter value) on the structured dump of the Grammar before and after optimize(), must be equal, and the multiset of special symbols (captures, stop captures, token limits, sub-grammar links) reachable from the start must be equal; (b) the same grammars compiled with and without the optimiser and explored in lock-step (depth {depth}, <= {max_states} pairs): equal masks, accepting flags and captured values; states = grammars + explored pairs"),
     }
 }
